@@ -1,4 +1,6 @@
 import StraxModel.Lemmas.PipelineVocab
+import StraxModel.Lemmas.PipelineIter
+import StraxModel.Props.C09
 /-
   Property C01 — results do not depend on chunking, processor, parallelism or what is stored.
 
@@ -16,8 +18,9 @@ import StraxModel.Lemmas.PipelineVocab
     pipeline_independent    two runs (different chunkings, plans, stored subsets) agree
 
   `ChunkHom` instances from first principles: `map_hom`, `filter_hom`, `merge_hom`, `multi_hom`,
-  `loop_hom`, `downchunk_hom`, `exhaust_hom`; awaiting a layer theorem: `overlap_hom_partial` (C09),
-  `iter_aligner_partial` (C08); proved FROM a layer theorem: `rechunk_is_transport` (C07).
+  `loop_hom`, `downchunk_hom`, `exhaust_hom`; proved FROM a layer theorem: `rechunk_is_transport` (C07),
+  `overlap_hom` (C09), `iter_is_aligner` (C08); `iter_aligner_total_partial` (totality of `Plugin.iter`:
+  different kinds, ten passes suffice).
 
   Full statement for the code as it stands (NOT provable: false at the two reproduced defects):
     ∀ g plan src, TopoOrdered g → LawAbiding sources →
@@ -217,21 +220,51 @@ theorem exhaust_aligner_total : Aligner.exhaust.Total 1 := by
 
 /-! ## 5. instances that await a layer theorem -/
 
-/-- overlap-window plugins.  Awaits C09 (`overlap_whole` at full strength: for a window-local `f` the
-state machine `Overlap.runOverlap f w` yields a law-abiding stream over the run whose rows are
-`f (rows s)`); given that theorem as `hspec`, the plugin kind is a chunk homomorphism. -/
-theorem overlap_hom_partial (f : List Row → List Row) (w : Int × Int)
-    (hspec : StreamSpec (Overlap.runOverlap f w) f) : ChunkHom (overlapKernel f w) :=
+/-- a stateful plugin kind given by a model over the calls is a chunk homomorphism as soon as the
+model's layer theorem (`StreamSpec`) holds -/
+theorem stream_hom (ov : List Chunk → Except Err (List Chunk)) (f : List Row → List Row)
+    (hspec : StreamSpec ov f) : ChunkHom (streamKernel ov f) :=
   streamKernel_hom hspec
 
-/-- `Plugin.iter` as an aligner.  Awaits C08 at full strength: C08 proves `calls_aligned`,
-`calls_adjacent` and `rows_once_in_order_all` of `Align.iterRun`; still owed are "every row handed
-over lies inside its call" and "the last call ends at the end of the run" (validity of the
-intermediate chunks).  Given them in the form `hspec`, `Plugin.iter` is an `Aligner`. -/
-theorem iter_aligner_partial (deps : List Align.Dep) (strict : Bool)
-    (hspec : ∀ R ins out, ins ≠ [] → StreamsOK R ins → iterAligner deps strict ins = .ok out →
+/-- **overlap-window plugins** (C09 `overlap_whole_for_pipeline`): for every window-local computation
+`f` (each output row is a function of its input row and of the rows within the window of it) the
+state machine of `OverlapWindowPlugin` is a chunk homomorphism — any law-abiding partition of the
+input, chunks shorter than the window included, gives the whole-run rows. -/
+theorem overlap_hom (f : List Row → List Row) (wl wr : Int) (hf : C09.WindowLocal f wl wr) :
+    ChunkHom (overlapKernel f (wl, wr)) :=
+  streamKernel_hom (C09.overlap_whole_for_pipeline f wl wr hf)
+
+/-- **`Plugin.iter` is an aligner** (C08 `calls_tile_run`, `rows_inside_call_dep`, with the round-1
+`calls_aligned` / `calls_adjacent` / `rows_once_in_order`): on the inputs C08 speaks about — plain
+law-abiding streams of run `rid`, one per dependency, all starting at `T0` and ending at `T1`, none
+with a trailing zero-duration chunk (`iterGuardB`; the last condition is D16) — whatever
+`Align.iterRun` returns is an aligned law-abiding partition of the same rows over `[T0, T1)`.
+So `Plugin.iter` can be plugged into `pipeline_content` as the aligner of every node. -/
+theorem iter_is_aligner (rid : String) (T0 T1 : Int) (deps : List Align.Dep) (strict : Bool) :
+    ∃ A : Aligner, ∀ ins, A.run ins =
+      (if iterGuardB rid T0 T1 deps ins then iterAligner deps strict ins else .error .other) :=
+  ⟨Aligner.iter rid T0 T1 deps strict, fun _ => rfl⟩
+
+/-- Totality of that aligner.  PARTIAL: proved (C08 `converges_partial`) for dependencies of pairwise
+different kinds and under `passesSufficeB` ("the re-trim loop does not run out of its ten passes").
+Full statement (false of the code as it stands, D9; same-kind totality not yet proved in C08):
+  iterGuardB rid T0 T1 deps ins = true → deps ≠ [] → ∃ out, (Aligner.iter …).run ins = .ok out -/
+theorem iter_aligner_total_partial (rid : String) (T0 T1 : Int) (deps : List Align.Dep) (strict : Bool)
+    (ins : List (List Chunk)) (hg : iterGuardB rid T0 T1 deps ins = true) (hdeps : deps ≠ [])
+    (hk : (deps.map (fun d => d.kind)).Nodup) (hp : Align.passesSufficeB deps ins strict = true) :
+    ∃ out, (Aligner.iter rid T0 T1 deps strict).run ins = .ok out := by
+  have hg' := hg
+  simp only [iterGuardB, Bool.and_eq_true, beq_iff_eq] at hg'
+  obtain ⟨⟨⟨hlen, hv⟩, hT⟩, he⟩ := hg'
+  obtain ⟨r, hr, -⟩ := C08.converges_partial hlen hdeps hv hT he hk hp
+  exact ⟨streamsOfCalls deps r.calls, by
+    simp [Aligner.iter, Aligner.ofSpec, iterAlignerG, hg, iterAligner, hr]⟩
+
+/-- the abstract form: any alignment function with the aligner layer theorem is an `Aligner` -/
+theorem aligner_of_spec (f : List (List Chunk) → Except Err (List (List Chunk)))
+    (hspec : ∀ R ins out, ins ≠ [] → StreamsOK R ins → f ins = .ok out →
       Aligned R out ∧ out.map rows = ins.map rows) :
-    ∃ A : Aligner, A.run = iterAligner deps strict :=
+    ∃ A : Aligner, A.run = f :=
   ⟨Aligner.ofSpec _ hspec, rfl⟩
 
 /-- `n` touching rows of length 2 starting at `off` -/
@@ -253,13 +286,11 @@ theorem iter_aligner_not_total_witness :
 /-! ## 6. the harness vocabulary: what the driver op `c01.whole` computes is what every successful
 execution returns -/
 
-/-- For a graph of the harness vocabulary (any plan, any aligner for the two-dependency kinds, the
-overlap-window kinds under C09's theorem): every successful execution returns, for every data
-type, the rows the driver computes with `Vocab.wholeV`. -/
-theorem vocab_content_partial (vg : List Vocab.VNode) (a2 : Aligner) (plan : Plan) (R : Int × Int) (src env : Env)
+/-- For a graph of the harness vocabulary (any plan, any aligner for the two-dependency kinds; the
+overlap-window kinds by C09 `overlap_vocab_for_pipeline`): every successful execution returns, for
+every data type, the rows the driver computes with `Vocab.wholeV`. -/
+theorem vocab_content (vg : List Vocab.VNode) (a2 : Aligner) (plan : Plan) (R : Int × Int) (src env : Env)
     (hsrc : EnvOK R src) (htopo : TopoOrdered (keys src) (vg.map (Vocab.toNode a2)))
-    (hov : ∀ n ∈ vg, ∀ w, n.kind = .overlap w →
-      StreamSpec (Overlap.runOverlap (Vocab.overlapWhole w) (w, w)) (Vocab.overlapWhole w))
     (hst : StoredOK plan.stored R (vg.map (Vocab.toNode a2)) (wenvOf src))
     (h : exec plan (vg.map (Vocab.toNode a2)) src = .ok env) :
     ∃ w, Vocab.wholeV vg (wenvOf src) = .ok w ∧
@@ -273,7 +304,7 @@ theorem vocab_content_partial (vg : List Vocab.VNode) (a2 : Aligner) (plan : Pla
     | false => exact Vocab.kernelOf_hom _ _ hk
     | true =>
       cases hkind : v.kind with
-      | overlap w => exact Vocab.kernelOf_hom_overlap w _ (hov v hv w hkind)
+      | overlap w => exact Vocab.kernelOf_hom_overlap w _ (C09.overlap_vocab_for_pipeline w)
       | _ => simp [hkind, Vocab.isOverlap] at hk
   obtain ⟨w, hw, hall⟩ := pipeline_content _ plan R src env hsrc (hom_of_topo htopo hhom) hst h
   refine ⟨w, ?_, hall⟩
@@ -377,6 +408,17 @@ example : (loopKernel Vocab.loopId "t5").chunked
        [mkC 0 10 [⟨1, 2, 10⟩, ⟨3, 5, 11⟩, ⟨5, 7, 12⟩, ⟨7, 9, 13⟩], mkC 10 20 [⟨11, 12, 14⟩]]]
     = .ok [[⟨"t5", "sa", some "0", 0, 10, [⟨1, 5, 66⟩, ⟨6, 9, 82⟩], none, [⟨"0", 0, 10⟩], 1⟩,
             ⟨"t5", "sa", some "0", 10, 20, [⟨10, 15, 114⟩], none, [⟨"0", 10, 20⟩], 1⟩]] := by decide +kernel
+
+/-- `Plugin.iter` as an aligner on a concrete input: two dependencies of different kinds, one chunked
+into five pieces (with an empty and a zero-duration chunk), one in a single chunk; the guard holds
+and the result is the common partition of both, rows unchanged -/
+example : iterGuardB "0" 0 14 [⟨"sa", "sa"⟩, ⟨"sb", "sb"⟩] [chunkingA, chunkingB] = true ∧
+    ((Aligner.iter "0" 0 14 [⟨"sa", "sa"⟩, ⟨"sb", "sb"⟩] true).run [chunkingA, chunkingB]).toOption.map
+        (fun o => o.map bounds)
+      = some [[(0, 4), (4, 4), (4, 10), (10, 11), (11, 14)], [(0, 4), (4, 4), (4, 10), (10, 11), (11, 14)]] ∧
+    ((Aligner.iter "0" 0 14 [⟨"sa", "sa"⟩, ⟨"sb", "sb"⟩] true).run [chunkingA, chunkingB]).toOption.map
+        (fun o => o.map (fun s => ids (rows s)))
+      = some [[100, 101, 102, 103], [100, 101, 102, 103]] := by decide +kernel
 
 /-- the plain-stream guard of the rechunk transport holds of an ordinary stream -/
 example : plainStreamB chunkingA = true := by decide +kernel
